@@ -229,3 +229,5 @@ func (P) Generate(g *core.Gen) {
 	genBase58(g)
 	genMore(g)
 }
+
+func b58enc(b []byte) string { return base58.Encode(b) }
